@@ -422,6 +422,34 @@ pub trait Scheme: 'static + Sized {
     ) -> Vec<(String, crate::session::Claim<Self>)> {
         vec![]
     }
+    /// C07: structural identities between a commitment, the same polynomial's non-hiding commitment,
+    /// the returned state and the public hiding generators. None = the scheme has no hiding.
+    #[cfg(feature = "full")]
+    fn hiding_audit(
+        _ck: &Ck<Self>,
+        _lp: &ark_poly_commit::LabeledPolynomial<Self::F, Self::P>,
+        _comm: &Comm<Self>,
+        _plain: Option<&Comm<Self>>,
+        _state: &State<Self>,
+    ) -> Option<Vec<String>> {
+        None
+    }
+    /// bytes of the blinding-related fields of a proof (None = none exist)
+    #[cfg(feature = "full")]
+    fn proof_blinding_bytes(_p: &Proof<Self>) -> Option<Vec<u8>> {
+        None
+    }
+    /// (blinding evaluation the proof carries, blinding evaluation it must carry) for a single `open`
+    #[cfg(feature = "full")]
+    fn random_v_check(
+        _p: &Proof<Self>,
+        _lps: &[&ark_poly_commit::LabeledPolynomial<Self::F, Self::P>],
+        _states: &[&State<Self>],
+        _z: &Self::Pt,
+        _challenges: &[Self::F],
+    ) -> Option<(Option<Self::F>, Option<Self::F>)> {
+        None
+    }
     /// every single-element replacement of a commitment
     fn comm_variants(_c: &Comm<Self>, _seed: u64) -> Vec<(String, Comm<Self>)> {
         vec![]
@@ -493,6 +521,33 @@ where
         format!("marlin-{}", E::CURVE)
     }
     #[cfg(feature = "full")]
+    fn hiding_audit(ck: &Ck<Self>, lp: &ark_poly_commit::LabeledPolynomial<Self::F, Self::P>, comm: &Comm<Self>, plain: Option<&Comm<Self>>, state: &State<Self>) -> Option<Vec<String>> {
+        plain.map(|pl| crate::hiding::marlin_audit::<E>(ck, lp, comm, pl, state))
+    }
+    #[cfg(feature = "full")]
+    fn proof_blinding_bytes(p: &Proof<Self>) -> Option<Vec<u8>> {
+        p.random_v.map(|v| { let mut b = vec![]; v.serialize_compressed(&mut b).unwrap(); b })
+    }
+    #[cfg(feature = "full")]
+    fn random_v_check(p: &Proof<Self>, lps: &[&ark_poly_commit::LabeledPolynomial<Self::F, Self::P>], states: &[&State<Self>], z: &Self::Pt, ch: &[Self::F]) -> Option<(Option<Self::F>, Option<Self::F>)> {
+        use ark_ff::Zero;
+        let mut c = 0;
+        let mut acc = Self::F::zero();
+        let mut any = false;
+        for (lp, st) in lps.iter().zip(states.iter()) {
+            let xi = *ch.get(c)?;
+            c += 1;
+            acc += xi * crate::hiding::eval_uv(&st.rand.blinding_polynomial, z);
+            any |= lp.hiding_bound().is_some();
+            if lp.degree_bound().is_some() {
+                let xi1 = *ch.get(c)?;
+                c += 1;
+                if let Some(sr) = &st.shifted_rand { acc += xi1 * crate::hiding::eval_uv(&sr.blinding_polynomial, z); }
+            }
+        }
+        Some((p.random_v, if any { Some(acc) } else { None }))
+    }
+    #[cfg(feature = "full")]
     fn proof_variants(p: &Proof<Self>, seed: u64) -> Vec<(String, Proof<Self>)> {
         crate::surgery::kzg_proof_variants::<E>(p, seed)
     }
@@ -517,6 +572,25 @@ where
         format!("sonic-{}", E::CURVE)
     }
     #[cfg(feature = "full")]
+    fn hiding_audit(ck: &Ck<Self>, lp: &ark_poly_commit::LabeledPolynomial<Self::F, Self::P>, comm: &Comm<Self>, plain: Option<&Comm<Self>>, state: &State<Self>) -> Option<Vec<String>> {
+        plain.map(|pl| crate::hiding::sonic_audit::<E>(ck, lp, comm, pl, state))
+    }
+    #[cfg(feature = "full")]
+    fn proof_blinding_bytes(p: &Proof<Self>) -> Option<Vec<u8>> {
+        p.random_v.map(|v| { let mut b = vec![]; v.serialize_compressed(&mut b).unwrap(); b })
+    }
+    #[cfg(feature = "full")]
+    fn random_v_check(p: &Proof<Self>, lps: &[&ark_poly_commit::LabeledPolynomial<Self::F, Self::P>], states: &[&State<Self>], z: &Self::Pt, ch: &[Self::F]) -> Option<(Option<Self::F>, Option<Self::F>)> {
+        use ark_ff::Zero;
+        let mut acc = Self::F::zero();
+        let mut any = false;
+        for (i, (lp, st)) in lps.iter().zip(states.iter()).enumerate() {
+            acc += *ch.get(i)? * crate::hiding::eval_uv(&st.blinding_polynomial, z);
+            any |= lp.hiding_bound().is_some();
+        }
+        Some((p.random_v, if any { Some(acc) } else { None }))
+    }
+    #[cfg(feature = "full")]
     fn proof_variants(p: &Proof<Self>, seed: u64) -> Vec<(String, Proof<Self>)> {
         crate::surgery::kzg_proof_variants::<E>(p, seed)
     }
@@ -534,6 +608,17 @@ where
     const FAMILY: Family = Family::Ipa;
     fn name() -> String {
         format!("ipa-{}", G::CURVE)
+    }
+    #[cfg(feature = "full")]
+    fn hiding_audit(ck: &Ck<Self>, lp: &ark_poly_commit::LabeledPolynomial<Self::F, Self::P>, comm: &Comm<Self>, plain: Option<&Comm<Self>>, state: &State<Self>) -> Option<Vec<String>> {
+        plain.map(|pl| crate::hiding::ipa_audit::<G>(ck, lp, comm, pl, state))
+    }
+    #[cfg(feature = "full")]
+    fn proof_blinding_bytes(p: &Proof<Self>) -> Option<Vec<u8>> {
+        match (p.hiding_comm, p.rand) {
+            (Some(h), Some(r)) => { let mut b = vec![]; h.serialize_compressed(&mut b).unwrap(); r.serialize_compressed(&mut b).unwrap(); Some(b) }
+            _ => None,
+        }
     }
     #[cfg(feature = "full")]
     fn proof_variants(p: &Proof<Self>, seed: u64) -> Vec<(String, Proof<Self>)> {
@@ -560,6 +645,25 @@ where
         format!("pst13-{}", E::CURVE)
     }
     #[cfg(feature = "full")]
+    fn hiding_audit(ck: &Ck<Self>, lp: &ark_poly_commit::LabeledPolynomial<Self::F, Self::P>, comm: &Comm<Self>, plain: Option<&Comm<Self>>, state: &State<Self>) -> Option<Vec<String>> {
+        plain.map(|pl| crate::hiding::pst13_audit::<E>(ck, lp, comm, pl, state))
+    }
+    #[cfg(feature = "full")]
+    fn proof_blinding_bytes(p: &Proof<Self>) -> Option<Vec<u8>> {
+        p.random_v.map(|v| { let mut b = vec![]; v.serialize_compressed(&mut b).unwrap(); b })
+    }
+    #[cfg(feature = "full")]
+    fn random_v_check(p: &Proof<Self>, lps: &[&ark_poly_commit::LabeledPolynomial<Self::F, Self::P>], states: &[&State<Self>], z: &Self::Pt, ch: &[Self::F]) -> Option<(Option<Self::F>, Option<Self::F>)> {
+        use ark_ff::Zero;
+        let mut acc = Self::F::zero();
+        let mut any = false;
+        for (i, (lp, st)) in lps.iter().zip(states.iter()).enumerate() {
+            acc += *ch.get(i)? * st.blinding_polynomial.eval_ref(z);
+            any |= lp.hiding_bound().is_some();
+        }
+        Some((p.random_v, if any { Some(acc) } else { None }))
+    }
+    #[cfg(feature = "full")]
     fn proof_variants(p: &Proof<Self>, seed: u64) -> Vec<(String, Proof<Self>)> {
         crate::surgery::pst_proof_variants::<E>(p, seed)
     }
@@ -577,6 +681,17 @@ where
     const FAMILY: Family = Family::Hyrax;
     fn name() -> String {
         format!("hyrax-{}", G::CURVE)
+    }
+    #[cfg(feature = "full")]
+    fn hiding_audit(ck: &Ck<Self>, _lp: &ark_poly_commit::LabeledPolynomial<Self::F, Self::P>, comm: &Comm<Self>, _plain: Option<&Comm<Self>>, state: &State<Self>) -> Option<Vec<String>> {
+        let m: crate::surgery::HyraxStateMirror<Self::F> = crate::surgery::to_mirror(state)?;
+        Some(crate::hiding::hyrax_audit::<G>(&ck.com_key, ck.h, &comm.row_coms, &m.randomness, &m.entries))
+    }
+    #[cfg(feature = "full")]
+    fn proof_blinding_bytes(p: &Proof<Self>) -> Option<Vec<u8>> {
+        let mut b = vec![];
+        p.serialize_compressed(&mut b).ok()?;
+        Some(b)
     }
     #[cfg(feature = "full")]
     fn proof_variants(p: &Proof<Self>, seed: u64) -> Vec<(String, Proof<Self>)> {
